@@ -54,6 +54,9 @@ def cases(draw, tier="quick"):
     if c["tor"] == "pass":
         c["relay"] = True
     c["late"] = draw(st.sampled_from([None, None, "s", "r"]))
+    # the rogue listeners behind hints answer the SYN only 70 s after the start (a slow or far endpoint): such a
+    # contender is still in the middle of its handshake when a connect() without any path reaches its deadline
+    c["slow_rogues"] = draw(st.integers(0, 3)) == 0
     # this process has run an earlier transfer under another transit key (the key the "wrongkey" rogues hold)
     c["prior"] = draw(st.booleans())
     # "tape": connect() is called at a tape-chosen moment; "after": only once everything the early
@@ -185,6 +188,7 @@ def run_case(c):
         s.set_transit_key(key)
         r.set_transit_key(key)
         rogue_factories = []
+        rogue_ports = set()
         rogue_listen_hints = {"s": [], "r": []}
         for (kind, where, param) in c["rogues"]:
             if where.startswith("hint-"):
@@ -199,6 +203,9 @@ def run_case(c):
                 rogue_factories.append(rf)
                 rogue_listen_hints[side].append({"type": "direct-tcp-v1", "hostname": "10.0.0.3",
                                                  "port": port.portnum, "priority": 0.0})
+                rogue_ports.add(port.portnum)
+                if c.get("slow_rogues"):
+                    W.net.slow_ports.add(port.portnum)
         bogus_s = [{"type": "direct-tcp-v1", "hostname": "10.0.0.9", "port": 1000 + i, "priority": 0.0}
                    for i in range(c["bogus"][0])]
         bogus_r = [{"type": "direct-tcp-v1", "hostname": "10.0.0.9", "port": 1100 + i, "priority": 0.0}
@@ -220,7 +227,14 @@ def run_case(c):
                 # after, inside the same call chain)
                 pending_check.append(1)
 
+        slow_release = [70.0 if c.get("slow_rogues") and W.net.slow_ports else None]
+        if slow_release[0] is not None:
+            W.clock.callLater(slow_release[0], lambda: None)        # makes virtual time stop at that instant
+
         def check_at_resolution():
+            if slow_release[0] is not None and W.clock.seconds() - t0 >= slow_release[0]:
+                slow_release[0] = None
+                W.net.slow_ports.clear()
             if pending_check and not at_resolution:
                 sel = [getattr(result[k][0], "transport", None) for k in ("s", "r")]
                 open_losers = []
@@ -279,6 +293,7 @@ def run_case(c):
                 if nt - t0 > 2 * TIMEOUT + 60:
                     break
                 W.clock.advance(nt - W.clock.seconds())
+                check_at_resolution()
                 continue
             e = tape.weighted(choices) if not tape.exhausted() else choices[0][1]
             if e[0] == "start":
@@ -289,8 +304,8 @@ def run_case(c):
             if e[0] == "net.deliver":
                 arg = tape.choice([1, 1, 2, 7, 30, None, None]) if not tape.exhausted() else None
             if e[0] == "net.connect":
-                if nopath and is_honest_connector(e[1]) and e[1].node in (ns, nr):
-                    arg = "refuse"
+                if nopath and is_honest_connector(e[1]) and e[1].node in (ns, nr) and e[1].port not in rogue_ports:
+                    arg = "refuse"          # (no HONEST path: the rogues behind hints can still be reached)
                 elif e[1].node in (ns, nr):
                     established[0] += 1
             try:
@@ -361,6 +376,13 @@ def run_case(c):
                         if p.transport.peer is ts or p.transport.peer is tr:
                             res.violate("keyholders", "a rogue end is on the selected link; %s" % info,
                                         input_class="rogue-selected")
+        if at_resolution and not at_resolution.get("ok"):
+            # a connect() that gave up (deadline, no contender left) leaves nothing open or half-negotiated behind
+            failed_sides = {"S" if k == "s" else "R" for k in ("s", "r") if not isinstance(result[k][0], Connection)}
+            left = [x for x in at_resolution["open_losers"] if x[0] in failed_sides]
+            if left:
+                res.violate("others-closed", "connect() failed, but connections of that side were still open when both "
+                            "calls had resolved: %r; %s" % (left, info), input_class="contender-open-after-failed-connect")
         if at_resolution.get("ok"):
             if at_resolution["open_losers"]:
                 res.violate("others-closed", "when both connect() calls had returned their Connection, other "
@@ -407,7 +429,7 @@ def run_case(c):
                 break
         res.nontrivial = established[0] >= 2 or bool(c["rogues"]) or nopath
         res.features = dict(nl="%d%d" % (c["nl_s"], c["nl_r"]), relay=("two" if c.get("relay2") else c["relay"]), rogues=len(c["rogues"]), nopath=nopath,
-                            prior=str(prior_done),
+                            slow=bool(c.get("slow_rogues")), prior=str(prior_done),
                             late=c["late"] or "-", tor=c.get("tor") or "-", est=common.bucket(established[0], [0, 1, 2, 4]),
                             probes=len(probes), ok=ok(S) and ok(R))
         res.trace = ",".join(W.trace[:300])
